@@ -422,3 +422,21 @@ pub fn same_value(a: &V, b: &V) -> bool {
 pub fn eval_array(p: &Arc<dyn datafusion_physical_expr::PhysicalExpr>, batch: &RecordBatch) -> Result<ArrayRef, datafusion_common::DataFusionError> {
     p.evaluate(batch)?.into_array(batch.num_rows())
 }
+
+/// Development aid: with `VF_EXPR_SURVEY=1` a violation is turned into a labelled pass so that one run shows the
+/// whole landscape of failing shapes (never set by `./check`).
+pub fn survey(r: vf_kit::engine::CaseResult) -> vf_kit::engine::CaseResult {
+    if std::env::var_os("VF_EXPR_SURVEY").is_none() {
+        return r;
+    }
+    if let vf_kit::engine::Outcome::Violation(m) = &r.outcome {
+        let key: String = m.lines().next().unwrap_or("").chars().take(90).map(|c| if c.is_ascii_digit() { '#' } else { c }).collect();
+        let mut labels = r.labels.clone();
+        labels.push(format!("SURVEY {key}"));
+        if let Some(l) = m.lines().nth(1) {
+            eprintln!("SURVEY {key} || {}", l.trim());
+        }
+        return vf_kit::engine::CaseResult::pass().labels(labels);
+    }
+    r
+}
